@@ -193,7 +193,23 @@ static Verdict runOn(const DescT<Obj>& d, const Case& c, Info& info)
                 const uint64_t v = c.ops[i].value;
                 size_t n = ((v >> 32) % 4 == 0) ? std::min(m.data.size(), d.maxData) : static_cast<size_t>((v >> 40) % (d.maxData + 1));
                 Bytes bytes = fillBytes(static_cast<uint32_t>(v), n);
-                d.dataSetter(o, bytes);
+                bool typeInvalidDuringWrite = false;
+                if constexpr (std::is_base_of_v<lib::Payload, Obj>)
+                {
+                    // one data write in eight happens while the payload's own type field holds the "invalid" constant (a state the type
+                    // setters reach); the type is restored afterwards - the data written must read back all the same
+                    if ((v >> 48) % 8 == 0)
+                    {
+                        const auto savedType = o.getType();
+                        o.setType(lib::PayloadType(lib::PayloadType::invalid));
+                        d.dataSetter(o, bytes);
+                        o.setType(savedType);
+                        typeInvalidDuringWrite = true;
+                        info.tag("data_setter_while_payload_type_is_invalid");
+                    }
+                }
+                if (!typeInvalidDuringWrite)
+                    d.dataSetter(o, bytes);
                 m.data = bytes;
                 for (const auto& e : d.dataEffects)
                 {
